@@ -10,7 +10,7 @@
      H        hooks for the notebook-specific strategy family of strategies.py (inline-*, remove,
               clear-all, record-conflict, inline-attachments) -- owned by the strategy-layer model;
               [no_hooks] answers Err NBDiffFormatError ("not modelled here")
-     gk, strict   generated source facts (Gen/MergeFacts.v)
+     gk, strict, cstrict   generated source facts (Gen/MergeFacts.v)
 
    Not represented: the ParentDeleted sentinel and the internal "parent_deleted" op; they only arise
    below will_diff_counter_parent_deletion = True, which is delegated to [hk_counter].
@@ -106,6 +106,7 @@ Section Merge.
   Variable H : hooks.
   Variable gk : guard_kind.
   Variable strict : bool.
+  Variable cstrict : bool.        (* source fact conflict_assert_strict *)
 
   Definition same_entry (a b : dentry) : bool := if strict then entry_eqb a b else entry_pyeqb a b.
   Definition same_diff (a b : diff) : bool := if strict then diff_eqb a b else diff_pyeqb a b.
@@ -161,7 +162,7 @@ Section Merge.
             match d with
             | DReplace _ v =>
                 do lv <- nth_res local dk;
-                do B1 <- b_conflict B p (addr [lv]) (addr [v]) item_strategy;
+                do B1 <- b_conflict cstrict B p (addr [lv]) (addr [v]) item_strategy;
                 sa_loop rest (taken + 1) offset B1
             | DRemove _ =>
                 do lv <- nth_res local dk;
@@ -184,7 +185,7 @@ Section Merge.
                           else if Z.leb (- idx) (Z.of_nat (length remote))
                                then nth_res remote (Z.to_nat (Z.of_nat (length remote) + idx))
                                else Err IndexError);
-                do B1 <- b_similar_insert B p (addr [lv]) (addr [rv]) [d] item_strategy;
+                do B1 <- b_similar_insert cstrict B p (addr [lv]) (addr [rv]) [d] item_strategy;
                 sa_loop rest (taken + 1) offset B1
             end in
           match rest with
@@ -192,7 +193,7 @@ Section Merge.
               if key_eqb k2 (KI dk) then
                 match d with
                 | DAddRange _ vl =>
-                    do B1 <- b_conflict B p (addr (slice local dk (dk + local_len)))
+                    do B1 <- b_conflict cstrict B p (addr (slice local dk (dk + local_len)))
                                         (Some [DAddRange akey vl]) item_strategy;
                     sa_loop rest' (taken + local_len)
                             (offset + Z.of_nat (vlen vl) - Z.of_nat local_len)%Z B1
@@ -230,7 +231,7 @@ Section Merge.
         do rl <- vlist_items rvl;
         do sub <- split_addrange lk ll rl p item_strategy;
         if has_conflicted sub && (nonempty lrest || nonempty rrest) then
-          b_conflict [] p (Some ldiff) (Some rdiff) item_strategy
+          b_conflict cstrict [] p (Some ldiff) (Some rdiff) item_strategy
         else
           match lrest, rrest with
           | [DRemoveRange _ n1], [DRemoveRange _ n2] =>
@@ -354,15 +355,15 @@ Section Merge.
                 do bv <- nth_res base key;
                 do sub <- hk_counter H M bv (is_removerange e0) thediff item_path;
                 Ok (B ++ sub)
-              else b_conflict B p (Some p0) (Some p1) item_strategy
+              else b_conflict cstrict B p (Some p0) (Some p1) item_strategy
           | _, _ => Err IndexError
           end
       else if one_of chunktype [ct "A/P"; ct "A/R"] then
-        do t <- b_tryresolve B p (Some d0) (Some d1) item_strategy;
+        do t <- b_tryresolve cstrict B p (Some d0) (Some d1) item_strategy;
         let '(B1, taken) := t in
         if taken then Ok B1 else b_local_then_remote B1 p (Some d0) (Some d1) true
       else if one_of chunktype [ct "P/A"; ct "R/A"] then
-        do t <- b_tryresolve B p (Some d0) (Some d1) item_strategy;
+        do t <- b_tryresolve cstrict B p (Some d0) (Some d1) item_strategy;
         let '(B1, taken) := t in
         if taken then Ok B1 else b_remote_then_local B1 p (Some d0) (Some d1) true
       else if one_of chunktype [ct "A/AP"; ct "AP/A"] then
@@ -397,7 +398,7 @@ Section Merge.
       | linenumber :: rinit =>
           let parent := rev rinit in
           let strategy := strat_get St (star_path parent) in
-          b_conflict [] parent (Some [DPatch linenumber ld]) (Some [DPatch linenumber rd]) strategy
+          b_conflict cstrict [] parent (Some [DPatch linenumber ld]) (Some [DPatch linenumber rd]) strategy
       end
     else
       let strategy := strat_get St (star_path p) in
@@ -452,11 +453,11 @@ Section Merge.
         if is_remove ld && is_remove rd then b_agreement B p (one ld) (one rd)
         else if is_remove ld && is_diff_all_transients [rd] p then b_local B p (one ld) (one rd)
         else if is_remove rd && is_diff_all_transients [ld] p then b_remote B p (one ld) (one rd)
-        else b_conflict B p (one ld) (one rd) item_strategy
-      else if negb (opk_eqb (op_of ld) (op_of rd)) then b_conflict B p (one ld) (one rd) item_strategy
+        else b_conflict cstrict B p (one ld) (one rd) item_strategy
+      else if negb (opk_eqb (op_of ld) (op_of rd)) then b_conflict cstrict B p (one ld) (one rd) item_strategy
       else if same_entry ld rd then b_agreement B p (one ld) (one rd)
       else match ld, rd with
-           | DAdd _ _, _ | DReplace _ _, _ => b_conflict B p (one ld) (one rd) item_strategy
+           | DAdd _ _, _ | DReplace _ _, _ => b_conflict cstrict B p (one ld) (one rd) item_strategy
            | DPatch _ dl, DPatch _ dr =>
                match obj_get key base with
                | Some bv => do sub <- M rec bv dl dr item_path; Ok (B ++ sub)
